@@ -147,6 +147,7 @@ type loopVerifier struct {
 	skipChecks int
 	wrongDesc  bool
 	want       ocispec.Descriptor
+	salt       uint32
 }
 
 func (v *loopVerifier) Verify(ctx context.Context, desc ocispec.Descriptor, sig []byte, opts notation.VerifierVerifyOptions) (*notation.VerificationOutcome, error) {
@@ -182,7 +183,23 @@ func (v *loopVerifier) SkipVerify(ctx context.Context, opts notation.VerifierVer
 		return false, nil, errors.New("mock: the trust policy cannot be evaluated")
 	}
 	if v.in.Skip == "yes" {
+		// the verifier SAYS skip; the level object it hands out with that is the library's own, an equal copy of it, or none
+		switch v.salt % 3 {
+		case 1:
+			cp := *trustpolicy.LevelSkip
+			cp.Enforcement = map[trustpolicy.ValidationType]trustpolicy.ValidationAction{}
+			for k, a := range trustpolicy.LevelSkip.Enforcement {
+				cp.Enforcement[k] = a
+			}
+			return true, &cp, nil
+		case 2:
+			return true, nil, nil
+		}
 		return true, trustpolicy.LevelSkip, nil
+	}
+	if v.salt%2 == 1 {
+		cp := *trustpolicy.LevelAudit
+		return false, &cp, nil
 	}
 	return false, trustpolicy.LevelStrict, nil
 }
@@ -194,7 +211,7 @@ func runNotationVerify() int {
 		must(json.Unmarshal(c.In, &in))
 		resolved := ocispec.Descriptor{MediaType: mtA, Digest: digestOf(digest.SHA256, []byte("the artifact")), Size: 4242}
 		repo := &loopRepo{in: in, resolved: resolved}
-		ver := &loopVerifier{in: in, want: resolved}
+		ver := &loopVerifier{in: in, want: resolved, salt: mix(*flagSeed, c.ID, "lvl")}
 		ref := "registry.verif.example/app/web"
 		switch in.Ref {
 		case "tag", "unresolvable":
@@ -202,7 +219,21 @@ func runNotationVerify() int {
 		case "digestMatch":
 			ref += "@" + string(resolved.Digest)
 		case "digestMismatch":
-			ref += "@" + string(digestOf(digest.SHA256, []byte("another artifact")))
+			// another digest than the one the repository resolves: of other content, or of the SAME content in another algorithm
+			// (the repository still answers with its own, sha256, descriptor).  Every rendering is tried with mocks of its own; the
+			// case is then run with the first one that is NOT refused, if there is one
+			base := ref
+			ref = base + "@" + string(digestOf(digest.SHA256, []byte("another artifact")))
+			for _, alt := range []digest.Digest{digestOf(digest.SHA512, []byte("the artifact")), digestOf(digest.SHA384, []byte("another artifact")), digestOf(digest.SHA512, []byte("another artifact"))} {
+				var aerr error
+				if p, _ := guarded(func() {
+					_, _, aerr = notation.Verify(context.Background(), &loopVerifier{in: in, want: resolved}, &loopRepo{in: in, resolved: resolved},
+						notation.VerifyOptions{ArtifactReference: base + "@" + string(alt), MaxSignatureAttempts: in.N})
+				}); p || aerr == nil {
+					ref = base + "@" + string(alt)
+					break
+				}
+			}
 		case "noTagNoDigest":
 		case "unparsable":
 			ref = "registry.verif.example/APP/Web:v1@@@"
